@@ -1,13 +1,15 @@
 """C11 — FIMO p-value tables (FimoOps / FimoTable design model; FimoTable_Oracle exact tail counts in limb arithmetic)."""
 from .. import core, std
-from ..impl_c11_compare import compare_tables
+from ..impl_c11_compare import compare_tables, compare_hits
 
 RULE = ("Design model: FimoTable.tla (Convolve per column, Accumulate) for EVERY 4 x w integer score matrix with w <= MaxW and "
         "entries in Lo..Hi: total mass 4^j, support bounds, tail = 4^w at the minimum, non-increasing, 0 above the maximum, equal "
         "to the brute-force count over all 4^w sequences. M1: every such matrix through fimo._pwm_to_mapping (bin_size 1), "
         "compared bin by bin with the model's tail (finite, <= 1, exact, -inf above the maximum). M3: realistic PWMs (Dirichlet, "
         "zeros, uniform, one-hot and two-letter columns; widths 1-30; bin sizes 0.01-1; eps 1e-6..0.1) discretised by the "
-        "documented rule; TLC returns the exact tail counts in two-limb arithmetic. distinct_nontrivial = matrices / PWMs whose "
+        "documented rule; TLC returns the exact tail counts in two-limb arithmetic; for widths <= 12 the p-value column of fimo() hits "
+        "is compared with the same counts, and half of those motifs are scanned again in the same process with another eps and then "
+        "the first eps (call histories). distinct_nontrivial = matrices / PWMs whose "
         "minimum and maximum attainable scores differ.")
 EXHAUSTIVE = True
 
@@ -28,22 +30,23 @@ def run(ctx):
         c["id"] = i + 1
     ocases = [dict(id=c["id"], M=c["M"], R=c["R"]) for c in cases]
     oracle = {o["id"]: o for o in ctx.oracle("FimoTable_Oracle", "FimoTable_Oracle.cfg", ocases, shards=core.NCPU, timeout_s=3000)}
-    nbad = 0
+    nbad = nhits = 0
     for c in cases:
         o = oracle[c["id"]]
-        v = compare_tables(c, o) if c["st"] == "ok" else "_pwm_to_mapping raised"
+        v = (compare_tables(c, o) or compare_hits(c, o)) if c["st"] == "ok" else "_pwm_to_mapping raised"
+        nhits += len(c["hits"]) if isinstance(c.get("hits"), list) else 0
         if c["R"] > 0:
             ctx.nontrivial(("pwm", c["id"]))
         if v:
             nbad += 1
             ctx.violation("M3", "PWM of width %d, bin_size %s, eps %s: %s" % (c["w"], c["bin_size"], c["eps"], v),
-                          dict(mode="pwm", pwm=c["pwm"], eps=c["eps"], bin_size=c["bin_size"]), cls=v.split(" (")[0].split(" is ")[0])
+                          dict(mode="pwm", pwm=c["pwm"], eps=c["eps"], bin_size=c["bin_size"], step=c.get("step", 0)), cls=v.split(" (")[0].split(" is ")[0])
         elif len(ctx.cov["samples"]) < 4:
             ctx.sample(dict(lane="M3", w=c["w"], bin_size=c["bin_size"], eps=c["eps"], R=c["R"], tail_counts_head=o["tail"][:3],
                             table_head=c["table"][:3]))
     ctx.cov["evaluations"] += len(cases)
     ctx.cov["traces_validated_against_impl"] += len(cases)
-    ctx.lane("M3", pwms=len(cases), mismatches=nbad, widths=sorted({c["w"] for c in cases}), max_bins=max([c["R"] for c in cases] or [0]))
+    ctx.lane("M3", pwms=len(cases), fimo_hit_pvalues=nhits, call_histories=sum(1 for c in cases if c.get("step") == 2), mismatches=nbad, widths=sorted({c["w"] for c in cases}), max_bins=max([c["R"] for c in cases] or [0]))
     # negative control: a table shifted by 4^-w must be refused by the comparison
     c0 = dict(cases[0]); c0["table"] = [t if isinstance(t, str) else __import__("math").log2(2.0 ** t + 4.0 ** -c0["w"]) for t in c0["table"]]
     ctx.negative_control("a table offset by 4^-w must be refused", bool(compare_tables(c0, oracle[cases[0]["id"]])))
